@@ -154,6 +154,20 @@ Theorem subtotals_sum_to_total : forall sow align empty dur from to posts fuel r
 Proof. exact flush_sum. Qed.
 Print Assumptions subtotals_sum_to_total.
 
+(* flush terminates normally: fuel covering the postings and the days up to the last one suffices
+   (each step takes a posting or moves the window at least one day forward) *)
+Theorem flush_terminates : forall sow align empty dur from to posts fuel date hi,
+  dur_ok dur -> 0 <= sow < 7 ->
+  (forall f t, from = Some f -> to = Some t -> f < t) ->
+  date_sorted posts ->
+  Forall (fun p => (forall f, from = Some f -> f <= p_date p) /\ past to (p_date p) = false /\ p_date p <= hi) posts ->
+  first_date from posts = Some date ->
+  (Z.to_nat (date - initial_start sow align (init dur from to) date) < fuel)%nat ->
+  (length posts + Z.to_nat (hi - initial_start sow align (init dur from to) date) < fuel)%nat ->
+  exists rows, flush_posts fuel sow align empty (init dur from to) posts = Ok rows.
+Proof. exact flush_posts_total. Qed.
+Print Assumptions flush_terminates.
+
 (* the hypotheses are satisfiable and the functions compute what ledger prints:
    `every 2 weeks from 2020/01/08 to 2020/03/03` (Sunday weeks): 01/08-01/11 (clipped), then
    14-day Sunday-aligned periods, the last one cut at 03/02 *)
